@@ -26,6 +26,9 @@ SPECS = {
     "bits": ('<start> ::= <b>{4} | <b>{8}\n<b> ::= 0 | 1\n', [b"\x05", b"\x50", b"\x05\x05"], "<b>"),
     # bytes regexes; the same word is requested as bytes and as str
     "bytes_regex": ('<start> ::= <k> <v>\n<k> ::= rb"[a-c]+"\n<v> ::= b"=" rb"[0-9]"\n', [b"ab=1", "ab=1", b"a=", "c=2"], "<k>"),
+    # a generator with a parameter: the API parse attaches the derived argument trees (.sources) to its result trees
+    "generator_param": ('def f(s):\n    return str(s) + str(s)\n<start> ::= <x> <tail>\n<x> ::= <d>+ := f(<src>)\n<src> ::= <d>+ := "12"\n<tail> ::= <d>*\n<d> ::= "1" | "2"\n',
+                        ["1212", "12121", "12"], "<x>"),
     "unambiguous": ('<start> ::= <k> ("," <k>)*\n<k> ::= r"[ab]+"\nwhere len(str(<start>)) < 4\n', ["a,b", "ab", "a,b,a", "a,"], "<k>"),
 }
 
@@ -41,7 +44,8 @@ def canon_tags(t, ren):
     s = t.symbol
     from mc.fd import leaf_value
     head = ("T", leaf_value(s)) if s.is_terminal else ("N", s.name())
-    return head + (t.sender, t.recipient, bool(t.read_only), tuple(tags), tuple(canon_tags(c, ren) for c in t._children))
+    return head + (t.sender, t.recipient, bool(t.read_only), tuple(tags), tuple(canon_tags(c, ren) for c in t._children),
+                   tuple(canon_tags(c, ren) for c in t._sources))
 
 
 def observe(trees):
@@ -57,6 +61,8 @@ def ops_for(name):
                 ("prefix_first", w), ("prefix_abandon1", w), ("api_prefix_first", w)]
     ops += [("inner_forest", ws[1] if name != "generator" else "cc"), ("inner_parse", ws[1] if name != "generator" else "cc")]
     ops += [("mutate_last", None), ("mutate_leaf", None)]
+    # a search through the API with extra constraints that the words requested afterwards violate
+    ops += [("api_fuzz_extra", None)]
     if name == "generator":
         ops += [("fuzz", None)]
     if name == "bits":
@@ -128,6 +134,12 @@ def apply(spec, name, op, held):
                 t.set_children(t.children[:1])
             t.symbol = NonTerminal("<mutated>")
             return ("mutated",)
+        elif kind == "api_fuzz_extra":
+            try:
+                spec.fuzz(desired_solutions=1, max_generations=1, population_size=2, random_seed=3, extra_constraints=['len(str(<start>)) > 40'])
+            except Exception:
+                pass
+            return ("searched",)
         elif kind == "mutate_leaf":
             if not held:
                 return None
@@ -187,7 +199,9 @@ def cache_canon(spec, held=()):
     # iteration leaves it behind): part of the state, otherwise histories with different futures merge
     ip = spec.grammar._parser._iter_parser
     residual = (tuple(sorted(repr(snap(t)) for t in getattr(ip, "_incomplete", ()))), len(getattr(ip, "_tmp_rules", {})))
-    return (tuple(sorted(items)), residual)
+    # what else a request reads from the spec object besides the caches
+    own = (len(spec.constraints), len(getattr(spec, "soft_constraints", []) or []), str(getattr(spec, "_start_symbol", "")))
+    return (tuple(sorted(items)), residual, own)
 
 
 def step(task):
@@ -200,7 +214,7 @@ def step(task):
         return (None, None, False)
     obs = apply(spec, name, ev, held)
     viol = None
-    if ev[0] not in ("mutate_last", "mutate_leaf"):
+    if ev[0] not in ("mutate_last", "mutate_leaf", "api_fuzz_extra"):
         want = fresh_obs(name, ev)
         if obs != want:
             viol = {"kind": "history_dependent_result", "spec": name, "history": [list(o) for o in hist], "request": list(ev),
